@@ -2672,4 +2672,376 @@ theorem uri_firstPres (rep : Nat → Bool) (ha : AsciiRep rep) : FirstPres rep r
   exact letter_seq_firstPres rep ha _ _ _ _ _ _ uLetter_ok uriY1 h1
     (fun c t hc => noStart_sound (cs := [(48, 57), (65, 70)]) (by decide) (upperHexRanges c hc) t)
 
+
+/-! ## the production scan (`tokenize2.py:174-202`) on the escaped text -/
+
+/-- what the scan of the escaped text must answer -/
+def mapScan (rep : Nat → Bool) (s : Cps) : Scan → Scan
+  | .nomatch => .nomatch
+  | .comment v => .comment (escape rep v)
+  | .hit n l => .hit n (elen rep s l)
+
+theorem lower_and (t : Cps) (h : pyLower t = andWord) : ∀ c ∈ t, c < 128 ∧ c ≠ 92 := by
+  intro c hc
+  have hsub : ∀ x ∈ lowerCp c, x = 97 ∨ x = 110 ∨ x = 100 := by
+    intro x hx
+    have : x ∈ pyLower t := List.mem_flatMap.mpr ⟨c, hc, hx⟩
+    rw [h] at this
+    simpa [andWord] using this
+  unfold lowerCp at hsub
+  split at hsub
+  · omega
+  · split at hsub
+    · have := hsub 0x6B (by simp); omega
+    · split at hsub
+      · have := hsub 0x69 (by simp); omega
+      · have := hsub c (by simp); omega
+
+theorem lower_and_escape {rep : Nat → Bool} (ha : AsciiRep rep) (t : Cps) :
+    (pyLower (escape rep t) != andWord) = (pyLower t != andWord) := by
+  by_cases hall : ∀ c ∈ t, rep c = true
+  · rw [escape_id' rep t hall]
+  · have hex : ∃ c ∈ t, rep c = false := by
+      apply Classical.byContradiction
+      intro hne
+      apply hall
+      intro c hc
+      cases h : rep c with
+      | true => rfl
+      | false => exact absurd ⟨c, hc, h⟩ hne
+    obtain ⟨c, hc, hr⟩ := hex
+    have h1 : pyLower t ≠ andWord := by
+      intro e; have := (lower_and t e c hc).1; have := unrep_ge ha hr; omega
+    have h2 : pyLower (escape rep t) ≠ andWord := by
+      intro e
+      have hmem : (92 : Nat) ∈ escape rep t := by
+        obtain ⟨a, b, rfl⟩ := List.append_of_mem hc
+        rw [escape_append]
+        apply List.mem_append_right
+        simp only [escape, hr, Bool.false_eq_true, if_false]
+        simp [escChar]
+      exact (lower_and _ e 92 hmem).2 rfl
+    rw [bne_iff_ne.mpr h1, bne_iff_ne.mpr h2]
+
+theorem head_escape_40 {rep : Nat → Bool} (ha : AsciiRep rep) (z : Cps) :
+    ((escape rep z).head? == some 40) = (z.head? == some 40) := by
+  cases z with
+  | nil => simp [escape]
+  | cons c t =>
+    cases hc : rep c with
+    | true => simp [escape, hc]
+    | false =>
+      have := unrep_ge ha hc
+      have h40 : c ≠ 40 := by omega
+      simp [escape, hc, escChar, h40]
+
+theorem getElem_is_head (x : Cps) (l : Nat) : x[l]? = (x.drop l).head? := by
+  rw [List.head?_drop]
+
+theorem identContinue_pres {rep : Nat → Bool} (ha : AsciiRep rep) (name : String) (s : Cps) (l : Nat) :
+    identContinue name (escape rep s) (elen rep s l) = identContinue name s l := by
+  unfold identContinue
+  rw [take_elen, lower_and_escape ha, getElem_is_head, getElem_is_head, drop_elen, head_escape_40 ha]
+  have e1 : ∀ (x : Cps) (k : Nat), (decide (k < x.length) && ((x.drop k).head? == some 40)) =
+      ((x.drop k).head? == some 40) := by
+    intro x k
+    by_cases hk : k < x.length
+    · simp [hk]
+    · simp [List.drop_eq_nil_of_le (Nat.le_of_not_lt hk)]
+  have e2 := e1 s l
+  have e3 := e1 (escape rep s) (elen rep s l)
+  rw [drop_elen, head_escape_40 ha] at e3
+  simp only [Bool.and_assoc] at e2 e3 ⊢
+  rw [e2, e3]
+
+theorem hasAt_escape {rep : Nat → Bool} (ha : AsciiRep rep) : ∀ (str s : Cps), (∀ c ∈ str, c < 128 ∧ c ≠ 92) →
+    hasAt (escape rep s) str = hasAt s str := by
+  intro str
+  induction str with
+  | nil => intro s _; simp [hasAt]
+  | cons a as ih =>
+    intro s hstr
+    have haa := hstr a List.mem_cons_self
+    cases s with
+    | nil => simp [escape]
+    | cons c t =>
+      have ih' := ih t (fun x hx => hstr x (List.mem_cons_of_mem _ hx))
+      unfold hasAt at ih' ⊢
+      cases hc : rep c with
+      | true =>
+        simp only [escape, hc, if_true, List.length_cons, List.take_succ_cons]
+        by_cases hca : c = a
+        · subst hca
+          simp only [List.cons_beq_cons, beq_self_eq_true, Bool.true_and]
+          exact ih'
+        · have : (c == a) = false := by simpa using hca
+          simp [this]
+      | false =>
+        have h128 := unrep_ge ha hc
+        have h1 : (c == a) = false := by
+          have : c ≠ a := by omega
+          simpa using this
+        have h2 : ((92 : Nat) == a) = false := by
+          have : (92 : Nat) ≠ a := by omega
+          simpa using this
+        simp [escape, hc, escChar, h1, h2]
+
+theorem guardFrom_append_rep (rep : Nat → Bool) : ∀ (s t : Cps) (pb : Bool), guardFrom rep pb s = true →
+    (∀ c ∈ t, rep c = true) → guardFrom rep pb (s ++ t) = true := by
+  intro s
+  induction s with
+  | nil =>
+    intro t
+    induction t with
+    | nil => intro pb _ _; rfl
+    | cons c t iht =>
+      intro pb _ ht
+      simp only [List.nil_append, guardFrom, Bool.and_eq_true]
+      refine ⟨by simp [ht c List.mem_cons_self], ?_⟩
+      exact iht _ rfl (fun x hx => ht x (List.mem_cons_of_mem _ hx))
+  | cons c s ih =>
+    intro t pb h ht
+    simp only [List.cons_append, guardFrom, Bool.and_eq_true] at h ⊢
+    exact ⟨h.1, ih t _ h.2 ht⟩
+
+theorem mapScan_ne {rep : Nat → Bool} {s : Cps} {x : Scan} (h : x ≠ .nomatch) : mapScan rep s x ≠ .nomatch := by
+  cases x <;> simp [mapScan] at h ⊢
+
+/-- the scan over a list of productions each of which keeps its first match at `s` -/
+theorem scan_pres (rep : Nat → Bool) (ha : AsciiRep rep) (full doC : Bool) (s : Cps) (hs : Good rep s) :
+    ∀ ps : List (String × Re), (∀ p ∈ ps, p.2.first (escape rep s) = (p.2.first s).map (elen rep s)) →
+      scan full doC (escape rep s) ps = mapScan rep s (scan full doC s ps) := by
+  have hcc : ∀ c ∈ commentClose, rep c = true := by
+    intro c hc; simp [commentClose] at hc; rcases hc with rfl | rfl <;> exact ha _ (by decide)
+  have hesc : escape rep s ++ commentClose = escape rep (s ++ commentClose) := by
+    rw [escape_append, escape_id' rep commentClose hcc]
+  have hcom : (commentRe.first (escape rep s ++ commentClose)).isSome = (commentRe.first (s ++ commentClose)).isSome := by
+    rw [hesc]
+    have hg : Good rep (s ++ commentClose) :=
+      ⟨guardFrom_append_rep rep s commentClose false hs.g hcc, by
+        intro c hc
+        simp only [List.mem_append] at hc
+        rcases hc with hc | hc
+        · exact hs.m c hc
+        · simp [commentClose] at hc; rcases hc with rfl | rfl <;> decide⟩
+    have := comment_firstPres rep ha (s ++ commentClose) hg
+    show (reCOMMENT.first _).isSome = (reCOMMENT.first _).isSome
+    rw [this]; simp
+  have hopen : hasAt (escape rep s) commentOpen = hasAt s commentOpen :=
+    hasAt_escape ha commentOpen s (by intro c hc; simp [commentOpen] at hc; rcases hc with rfl | rfl <;> decide)
+  intro ps
+  induction ps with
+  | nil => intro _; rfl
+  | cons p ps ih =>
+    intro hP
+    obtain ⟨name, r⟩ := p
+    have hr := hP (name, r) List.mem_cons_self
+    have ih' := ih (fun q hq => hP q (List.mem_cons_of_mem _ hq))
+    simp only [scan, hopen, hcom]
+    split
+    · simp only [mapScan, hesc]
+    · simp only at hr
+      rw [hr]
+      cases hf : r.first s with
+      | none => exact ih'
+      | some l =>
+        simp only [Option.map_some, identContinue_pres ha]
+        split
+        · exact ih'
+        · rfl
+
+theorem scan_prefix (full doC : Bool) (s : Cps) (b : List (String × Re)) : ∀ a : List (String × Re),
+    scan full doC s a ≠ .nomatch → scan full doC s (a ++ b) = scan full doC s a := by
+  intro a
+  induction a with
+  | nil => intro h; exact absurd rfl h
+  | cons p a ih =>
+    obtain ⟨name, r⟩ := p
+    intro h
+    simp only [List.cons_append, scan] at h ⊢
+    split
+    · rfl
+    · rename_i hc
+      simp only [hc] at h
+      cases hf : r.first s with
+      | none => rw [hf] at h; exact ih h
+      | some l =>
+        rw [hf] at h
+        simp only at h ⊢
+        split
+        · rename_i hi; simp only [hi, if_true] at h; exact ih h
+        · rfl
+
+theorem scan_hit_mem (full doC : Bool) (s : Cps) : ∀ a : List (String × Re),
+    (∃ p ∈ a, ∃ l, p.2.first s = some l ∧ identContinue p.1 s l = false) → scan full doC s a ≠ .nomatch := by
+  intro a
+  induction a with
+  | nil => rintro ⟨p, hp, _⟩; cases hp
+  | cons q a ih =>
+    obtain ⟨name, r⟩ := q
+    rintro ⟨p, hp, l, hl, hi⟩
+    simp only [scan]
+    split
+    · simp
+    · cases hf : r.first s with
+      | none =>
+        simp only
+        apply ih
+        simp only [List.mem_cons] at hp
+        rcases hp with rfl | hp
+        · simp only at hl; rw [hf] at hl; cases hl
+        · exact ⟨p, hp, l, hl, hi⟩
+      | some l' =>
+        simp only
+        split
+        · rename_i hic
+          apply ih
+          simp only [List.mem_cons] at hp
+          rcases hp with rfl | hp
+          · simp only at hl hi; rw [hf] at hl; cases hl; rw [hic] at hi; cases hi
+          · exact ⟨p, hp, l, hl, hi⟩
+        · simp
+
+/-- a decisive prefix of the production list -/
+theorem scan_decisive (rep : Nat → Bool) (ha : AsciiRep rep) (full doC : Bool) (s : Cps) (hs : Good rep s)
+    (a b : List (String × Re)) (hP : ∀ p ∈ a, p.2.first (escape rep s) = (p.2.first s).map (elen rep s))
+    (hne : scan full doC s a ≠ .nomatch) :
+    scan full doC (escape rep s) (a ++ b) = mapScan rep s (scan full doC s (a ++ b)) := by
+  have h1 := scan_pres rep ha full doC s hs a hP
+  rw [scan_prefix full doC s b a hne, scan_prefix full doC (escape rep s) b a (by rw [h1]; exact mapScan_ne hne), h1]
+
+
+/-! ## every production, and the scan over the whole table -/
+
+def checkedNames : List String :=
+  ["S", "IDENT", "DIMENSION", "PERCENTAGE", "NUMBER", "HASH", "ATKEYWORD", "INCLUDES", "DASHMATCH", "PREFIXMATCH",
+   "SUFFIXMATCH", "SUBSTRINGMATCH", "CDO", "CDC"]
+
+theorem checked_ok : ∀ p ∈ productions, p.1 ∈ checkedNames → firstPres p.2 = true := by decide
+
+theorem productions_split : ∀ p ∈ productions,
+    (p.1 == "FUNCTION" || p.1 == "CHAR" || checkedNames.contains p.1 || decide (p.2 = reSTRING) ||
+      decide (p.2 = reINVALID) || decide (p.2 = reCOMMENT) || decide (p.2 = reURI) ||
+      decide (p.2 = reUNICODE_RANGE)) = true := by decide
+
+/-- every production but FUNCTION and CHAR keeps its first match on every guarded text -/
+theorem productions_firstPres (rep : Nat → Bool) (ha : AsciiRep rep) :
+    ∀ p ∈ productions, p.1 ≠ "FUNCTION" → p.1 ≠ "CHAR" → FirstPres rep p.2 := by
+  intro p hp h1 h2
+  have := productions_split p hp
+  simp only [Bool.or_eq_true, beq_iff_eq, decide_eq_true_eq, List.contains_eq_mem] at this
+  rcases this with ((((((h | h) | h) | h) | h) | h) | h) | h
+  · exact absurd h h1
+  · exact absurd h h2
+  · exact firstPres_sound rep ha p.2 (checked_ok p hp h)
+  · rw [h]; exact string_firstPres rep ha
+  · rw [h]; exact invalid_firstPres rep ha
+  · rw [h]; exact comment_firstPres rep ha
+  · rw [h]; exact uri_firstPres rep ha
+  · rw [h]; exact unicodeRange_firstPres rep ha
+
+theorem function_entry : ∀ p ∈ productions, p.1 = "FUNCTION" → p.2 = reFUNCTION := by decide
+theorem char_entry : ∀ p ∈ productions, p.1 = "CHAR" → p.2 = reCHAR := by decide
+
+/-- a character that has to be escaped starts an identifier -/
+theorem ident_ms_unrep {rep : Nat → Bool} (ha : AsciiRep rep) (c : Nat) (t : Cps) (hc : rep c = false)
+    (hcm : c ≤ maxUnicode) : reIDENT.ms (c :: t) ≠ [] := by
+  have h128 := unrep_ge ha hc
+  have hin : inR [(128, 0x10FFFF)] c = true := by
+    simp only [inR, List.any_cons, List.any_nil, Bool.or_false, Bool.and_eq_true, decide_eq_true_eq]
+    exact ⟨h128, hcm⟩
+  have h1 : nmstartRe.ms (c :: t) = [1] := exactlyOne_sound [(128, 0x10FFFF)] c hin nmstartRe (by decide) t
+  rw [reIDENT_eq, seq_ms_left_zero (dashOpt_ms c t (by omega))]
+  exact seq_ne_nil (by rw [h1]; simp) (fun s' => starMs_ne_nil _ _ _ _)
+
+theorem identContinue_other (name : String) (s : Cps) (l : Nat) (h : name ≠ "IDENT") :
+    identContinue name s l = false := by
+  simp [identContinue, h]
+
+/-- **the production scan on the escaped text**: the same production hits, at the mapped length -/
+theorem scan_escape (rep : Nat → Bool) (ha : AsciiRep rep) (full doC : Bool) (s : Cps) (hs : Good rep s) :
+    scan full doC (escape rep s) productions = mapScan rep s (scan full doC s productions) := by
+  have hK : ∀ p ∈ productions, p.1 ≠ "FUNCTION" → p.1 ≠ "CHAR" →
+      p.2.first (escape rep s) = (p.2.first s).map (elen rep s) :=
+    fun p hp h1 h2 => productions_firstPres rep ha p hp h1 h2 s hs
+  have hI := hK ("IDENT", reIDENT) (by simp [productions]) (by decide) (by decide)
+  simp only at hI
+  -- all productions kept at `s`, given FUNCTION and a representable first character
+  have hall : reFUNCTION.first (escape rep s) = (reFUNCTION.first s).map (elen rep s) →
+      (∀ c t, s = c :: t → rep c = true) →
+      scan full doC (escape rep s) productions = mapScan rep s (scan full doC s productions) := by
+    intro hF hh
+    apply scan_pres rep ha full doC s hs
+    intro p hp
+    by_cases h1 : p.1 = "FUNCTION"
+    · rw [function_entry p hp h1]; exact hF
+    · by_cases h2 : p.1 = "CHAR"
+      · rw [char_entry p hp h2]; exact firstPresH_cls rep _ _ s hs hh
+      · exact hK p hp h1 h2
+  have hsplit4 : productions = productions.take 4 ++ productions.drop 4 := (List.take_append_drop 4 _).symm
+  have hsplit5 : productions = productions.take 5 ++ productions.drop 5 := (List.take_append_drop 5 _).symm
+  have hk4 : ∀ p ∈ productions.take 4, p.2.first (escape rep s) = (p.2.first s).map (elen rep s) := by
+    intro p hp
+    have h12 : p.1 ≠ "FUNCTION" ∧ p.1 ≠ "CHAR" := by revert hp; revert p; decide
+    exact hK p (List.mem_of_mem_take hp) h12.1 h12.2
+  cases hid : reIDENT.first s with
+  | none =>
+    rw [hid] at hI
+    apply hall
+    · rw [function_first_none hid, function_first_none hI]; rfl
+    · intro c t e
+      cases hc : rep c with
+      | true => rfl
+      | false =>
+        exfalso
+        subst e
+        have := ident_ms_unrep ha c t hc (hs.m c List.mem_cons_self)
+        unfold Re.first at hid
+        cases hm : reIDENT.ms (c :: t) with
+        | nil => exact this hm
+        | cons y ys => rw [hm] at hid; cases hid
+  | some l =>
+    rw [hid] at hI
+    simp only [Option.map_some] at hI
+    have hlb := Re.first_bounded reIDENT s l hid
+    by_cases h40 : s[l]? = some 40
+    · -- FUNCTION is kept
+      have hF0 := function_first_some hid h40
+      have hlt : l < s.length := by
+        rcases Nat.lt_or_ge l s.length with h | h
+        · exact h
+        · rw [List.getElem?_eq_none h] at h40; cases h40
+      have hd : s.drop l = 40 :: s.drop (l + 1) := by
+        rw [List.drop_eq_getElem_cons hlt]
+        congr 1
+        rw [List.getElem?_eq_getElem hlt] at h40
+        exact Option.some.inj h40
+      have hr40 : rep 40 = true := ha 40 (by decide)
+      have hp' : (escape rep s)[elen rep s l]? = some 40 := by
+        have := drop_elen rep s l
+        rw [hd, escape_cons_rep _ hr40] at this
+        rw [getElem_is_head, this]; rfl
+      have hF1 := function_first_some hI hp'
+      have hF : reFUNCTION.first (escape rep s) = (reFUNCTION.first s).map (elen rep s) := by
+        rw [hF0, hF1, Option.map_some, elen_add, hd, elen_one_rep _ hr40]
+      by_cases hh : ∀ c t, s = c :: t → rep c = true
+      · exact hall hF hh
+      · -- the first character has to be escaped: IDENT is skipped, FUNCTION hits; CHAR is never reached
+        rw [hsplit5]
+        apply scan_decisive rep ha full doC s hs
+        · intro p hp
+          by_cases h1 : p.1 = "FUNCTION"
+          · rw [function_entry p (List.mem_of_mem_take hp) h1]; exact hF
+          · have hb : ∀ p ∈ productions.take 5, p.1 ≠ "CHAR" := by decide
+            exact hK p (List.mem_of_mem_take hp) h1 (hb p hp)
+        · apply scan_hit_mem
+          exact ⟨("FUNCTION", reFUNCTION), by simp [productions], l + 1, hF0, identContinue_other _ _ _ (by decide)⟩
+    · -- the identifier is not followed by `(`: IDENT (or a production in front of it) hits
+      rw [hsplit4]
+      apply scan_decisive rep ha full doC s hs _ _ hk4
+      apply scan_hit_mem
+      refine ⟨("IDENT", reIDENT), by simp [productions], l, hid, ?_⟩
+      have : (s[l]? == some 40) = false := by simpa using h40
+      simp [identContinue, this]
+
 end CssVerif.EncTok
